@@ -157,6 +157,35 @@ func (x *Exec) loopHeader(fr *Frame, h *ssa.BasicBlock, pred *ssa.BasicBlock, np
 				x.oblige(fr, st, "decr", fmt.Sprintf("%s.loop%d", shortFn(fr.fn), ord), h.Instrs[0].Pos(), goal, lc.Decreases.Text)
 			}
 		}
+		// ghost frame of the loop: a ghost variable that the body changes must be declared in `loop k ghostmod`
+		// (it is havocked at the head only then); an undeclared change would otherwise be lost at the cut
+		for i := len(st.loopFrames) - 1; i >= 0; i-- {
+			lf := st.loopFrames[i]
+			if lf.header != h || lf.frameID != fr.id || lf.ghostHead == nil {
+				continue
+			}
+			var names []string
+			for gname := range lf.ghostHead {
+				names = append(names, gname)
+			}
+			sort.Strings(names)
+			for _, gname := range names {
+				if lc != nil && lc.GhostModified[gname] {
+					continue
+				}
+				head, cur := lf.ghostHead[gname], st.ghost[gname]
+				var eqs []*Term
+				for ci := range head.C {
+					if ci < len(cur.C) && head.C[ci] != cur.C[ci] {
+						eqs = append(eqs, Eq(head.C[ci], cur.C[ci]))
+					}
+				}
+				if len(eqs) > 0 {
+					x.oblige(fr, st, "loopframe", fmt.Sprintf("%s.loop%d", shortFn(fr.fn), ord), h.Instrs[0].Pos(), And(eqs...), "ghost "+gname+" unchanged by the loop body")
+				}
+			}
+			break
+		}
 		x.frameCheckTop(st)
 		x.countPath()
 		return
@@ -272,6 +301,10 @@ func (x *Exec) loopHeader(fr *Frame, h *ssa.BasicBlock, pred *ssa.BasicBlock, np
 			nv := freshVal(gv.T, "g."+gname)
 			st.ghost[gname] = nv
 		}
+	}
+	lf.ghostHead = make(map[string]Val, len(st.ghost))
+	for gname, gv := range st.ghost {
+		lf.ghostHead[gname] = gv
 	}
 	st.loopFrames = append(st.loopFrames, lf)
 	if lc != nil {
